@@ -510,4 +510,283 @@ theorem send_complete (rv : Bool) (beh : Behav) (fuel ev : Nat) (s s' : State) (
       rw [newPart_of_append hδ1] at hkl
       exact hsub _ hkl
 
+
+/-! ## full strength: only calls made before the handler's turn matter -/
+
+/-- the test of `beforeTurn` -/
+def turnP (d rid : Nat) : Entry → Bool := fun e =>
+  match e with
+  | .call d' id _ _ _ => !(d' == d && decide (rid ≤ id))
+  | _ => true
+
+theorem beforeTurn_eq (d rid : Nat) (t : List Entry) : beforeTurn d rid t = t.takeWhile (turnP d rid) := rfl
+
+theorem takeWhile_append_all {p : Entry → Bool} {a : List Entry} (b : List Entry) (h : ∀ e ∈ a, p e = true) :
+    (a ++ b).takeWhile p = a ++ b.takeWhile p := by
+  induction a with
+  | nil => rfl
+  | cons x a ih =>
+    have hx : p x = true := h x (by simp)
+    simp only [List.cons_append, List.takeWhile_cons, hx, if_true]
+    rw [ih (fun e he => h e (by simp [he]))]
+
+theorem mem_takeWhile_append_left {p : Entry → Bool} {a : List Entry} (b : List Entry) {e : Entry}
+    (h : e ∈ a.takeWhile p) : e ∈ (a ++ b).takeWhile p := by
+  induction a with
+  | nil => simp at h
+  | cons x a ih =>
+    simp only [List.cons_append, List.takeWhile_cons] at h ⊢
+    by_cases hx : p x = true
+    · simp only [hx, if_true] at h ⊢
+      rcases List.mem_cons.mp h with rfl | h
+      · simp
+      · exact List.mem_cons_of_mem _ (ih h)
+    · simp [hx] at h
+
+def KLoopT (rv : Bool) (beh : Behav) (ev : Nat) (r0 : Rec) (fuel : Nat) : Prop :=
+  ∀ d cur s s', Inv rv s → 0 < s.refCount → d < s.nextDid →
+    (∀ c, cur = some c → c ∈ ids s.list) → (∀ c, cur = some c → ∀ x ∈ callsOf d s.trace, x < c) →
+    Kept ev r0 s → loop rv beh d ev fuel cur s = .ok s' →
+    Quiet ev r0 (beforeTurn d r0.id (newPart s s')) →
+    ∀ c, cur = some c → c ≤ r0.id → Entry.call d r0.id r0.fn r0.user ev ∈ newPart s s'
+
+theorem kloopT (rv : Bool) (beh : Behav) (ev : Nat) (r0 : Rec) : ∀ fuel, KLoopT rv beh ev r0 fuel := by
+  intro fuel
+  induction fuel with
+  | zero =>
+    intro d cur s s' _ _ _ _ _ _ hs _ c hc _
+    subst hc
+    simp [loop] at hs
+  | succ fuel ih =>
+    intro d cur s s' h hrc hd hlive hlt hk hs hq c0 hc0 hle0
+    subst hc0
+    rw [loop_succ] at hs
+    obtain ⟨eh, hf⟩ := find_some_of_mem (hlive c0 rfl)
+    rw [hf] at hs
+    simp only at hs
+    obtain ⟨hem, heid⟩ := find_spec hf
+    subst heid
+    cases hrun : callbackRun rv beh d ev fuel eh s with
+    | error e1 => rw [hrun] at hs; simp at hs
+    | ok s2 =>
+      rw [hrun] at hs
+      simp only at hs
+      obtain ⟨h2, e2, hle2⟩ := callbackRun_ok rv beh d ev fuel eh s s2 h hd hem (hlt eh.id rfl) hrun
+      obtain ⟨t, ht⟩ := e2.pre hrc
+      have hin2 : eh.id ∈ ids s2.list := by
+        rw [ht]; exact List.mem_append_left _ (mem_ids.mpr ⟨eh, hem, rfl⟩)
+      obtain ⟨nx, hnx, hnx2⟩ := nextOf_of_mem h2.sorted hin2
+      rw [hnx] at hs
+      simp only at hs
+      have hrc2 : 0 < s2.refCount := by rw [e2.refCount]; exact hrc
+      have hd2 : d < s2.nextDid := Nat.lt_of_lt_of_le hd e2.nextDid
+      have hlt2 : ∀ c', nx = some c' → ∀ x ∈ callsOf d s2.trace, x < c' := by
+        intro c' hc' x hx
+        have := hle2 x hx
+        have := (hnx2 c' hc').2
+        omega
+      obtain ⟨h3, e3⟩ := ((exec_loop_ok rv beh fuel).2 d ev nx s2 h2 hrc2 hd2 (fun c' hc' => (hnx2 c' hc').1) hlt2).1 s' hs
+      obtain ⟨δ2, hδ2, _⟩ := e2.trace
+      obtain ⟨δ3, hδ3, _⟩ := e3.trace
+      have hnp := newPart_trans hδ2 hδ3
+      obtain ⟨r, hr, hid, hfn, huser, hrm, hmask⟩ := hk
+      by_cases heq : eh.id = r0.id
+      · -- its turn: it is called whatever happens later
+        have : eh = r := sorted_inj h.sorted hem hr (by omega)
+        subst this
+        have hcallc : (decide (eh.mask &&& ev ≠ 0) && !eh.remove) = true := by simp [hmask, hrm]
+        unfold callbackRun at hrun
+        simp only [hcallc, if_true] at hrun
+        have h1 := inv_append_call h hem hrm d ev hd (hlt eh.id rfl)
+        obtain ⟨_, e12⟩ := (script_ok (exec_loop_ok rv beh fuel).1 (beh s.trace eh.fn eh.user ev) _ h1).1 s2 hrun
+        obtain ⟨δ12, hδ12, _⟩ := e12.trace
+        rw [hnp]
+        apply List.mem_append_left
+        have : s.trace ++ δ2 = s.trace ++ ([Entry.call d eh.id eh.fn eh.user ev] ++ δ12) := by
+          rw [← hδ2, hδ12]; simp
+        rw [List.append_cancel_left this, ← hid, ← hfn, ← huser]
+        simp
+      · -- ahead: everything this callback logged lies before the record's turn
+        have hlt0 : eh.id < r0.id := by omega
+        have hδ2P : (∀ e ∈ δ2, turnP d r0.id e = true) ∧ Kept ev r0 s2 := by
+          unfold callbackRun at hrun
+          by_cases hcall : (decide (eh.mask &&& ev ≠ 0) && !eh.remove) = true
+          · simp only [hcall, if_true] at hrun
+            have hrm' : eh.remove = false := by
+              simp only [Bool.and_eq_true, Bool.not_eq_eq_eq_not, Bool.not_true] at hcall
+              exact hcall.2
+            have h1 := inv_append_call h hem hrm' d ev hd (hlt eh.id rfl)
+            obtain ⟨_, e12⟩ := (script_ok (exec_loop_ok rv beh fuel).1 (beh s.trace eh.fn eh.user ev) _ h1).1 s2 hrun
+            obtain ⟨δ12, hδ12, hc12⟩ := e12.trace
+            have hδ2eq : δ2 = [Entry.call d eh.id eh.fn eh.user ev] ++ δ12 := by
+              have : s.trace ++ δ2 = s.trace ++ ([Entry.call d eh.id eh.fn eh.user ev] ++ δ12) := by
+                rw [← hδ2, hδ12]; simp
+              exact List.append_cancel_left this
+            have hall : ∀ e ∈ δ2, turnP d r0.id e = true := by
+              intro e he
+              rw [hδ2eq] at he
+              rcases List.mem_append.mp he with he | he
+              · simp only [List.mem_singleton] at he
+                subst he
+                have : ¬ (r0.id ≤ eh.id) := by omega
+                simp [turnP, this]
+              · cases e with
+                | call d' id f u e' =>
+                  have := hc12 d' id f u e' he
+                  have hne : ¬ (d' = d) := by simp only at this; omega
+                  simp [turnP, hne]
+                | _ => rfl
+            refine ⟨hall, ?_⟩
+            apply kscript (kexec_kloop rv beh ev r0 fuel).1 _ _ s2 h1 ⟨r, hr, hid, hfn, huser, hrm, hmask⟩ hrun
+            intro c' hc'
+            rw [newPart_of_append hδ12] at hc'
+            apply hq c'
+            rw [hnp, beforeTurn_eq, takeWhile_append_all δ3 hall]
+            apply List.mem_append_left
+            rw [hδ2eq]; simp [hc']
+          · simp only [hcall, if_false, Bool.false_eq_true, Except.ok.injEq] at hrun
+            subst hrun
+            have : δ2 = [] := by
+              have : s.trace ++ δ2 = s.trace ++ [] := by rw [← hδ2]; simp
+              exact List.append_cancel_left this
+            subst this
+            exact ⟨(fun e he => by cases he), ⟨r, hr, hid, hfn, huser, hrm, hmask⟩⟩
+        obtain ⟨hall, hk2⟩ := hδ2P
+        obtain ⟨r2, hr2, hid2, _⟩ := hk2
+        obtain ⟨c', hc', hle'⟩ := nextOf_le h2.sorted hin2 hr2 (by omega)
+        rw [hnx] at hc'
+        cases hc'
+        have := ih d (some c') s2 s' h2 hrc2 hd2 (fun c'' hc'' => (hnx2 c'' hc'').1) hlt2
+          ⟨r2, hr2, hid2, ‹_›⟩ hs (by
+            intro c'' hc''
+            rw [newPart_of_append hδ3] at hc''
+            apply hq c''
+            rw [hnp, beforeTurn_eq, takeWhile_append_all δ3 hall]
+            exact List.mem_append_right _ (by rw [← beforeTurn_eq]; exact hc'')) c' rfl (by omega)
+        rw [newPart_of_append hδ3] at this
+        rw [hnp]; exact List.mem_append_right _ this
+
+/-- Full-strength at-least-once for a top-level delivery: only API calls executed before the
+handler's turn can excuse a missing invocation. -/
+theorem send_complete_full (rv : Bool) (beh : Behav) (fuel ev : Nat) (s s' : State) (h : Inv rv s)
+    (hidle : s.refCount = 0) (hs : exec rv beh fuel s (.send ev) = .ok s')
+    (r : Rec) (hr : r ∈ s.list) (hmask : r.mask &&& ev ≠ 0)
+    (hq : Quiet ev r (beforeTurn s.nextDid r.id (newPart s s'))) :
+    Entry.call s.nextDid r.id r.fn r.user ev ∈ newPart s s' := by
+  cases fuel with
+  | zero => simp [exec] at hs
+  | succ fuel =>
+    have hrm : r.remove = false := h.idleClean hidle r hr
+    have hem : s.eventMask &&& ev ≠ 0 := h.maskSup r hr hrm ev hmask
+    rw [exec_send_succ] at hs
+    simp only [hem, if_false] at hs
+    have ha := inv_ghost h [Entry.api (.send ev), Entry.begin s.nextDid ev] (s.nextDid + 1) (Nat.le_succ _) (by
+      intro e he
+      have : e = Entry.api (.send ev) ∨ e = Entry.begin s.nextDid ev := by simpa using he
+      rcases this with rfl | rfl <;> simp [Entry.callId])
+    have h0 : Inv rv { s with trace := s.trace ++ [Entry.api (.send ev), Entry.begin s.nextDid ev], nextDid := s.nextDid + 1, refCount := s.refCount + 1 } :=
+      inv_refCount_pos ha (s.refCount + 1) (Nat.succ_pos _)
+    have hlive : ∀ c, Option.map (fun x => x.id) s.list.head? = some c → c ∈ ids s.list := by
+      intro c hcc
+      cases hh : s.list.head? with
+      | none => rw [hh] at hcc; cases hcc
+      | some r =>
+        rw [hh] at hcc
+        simp only [Option.map_some, Option.some.injEq] at hcc
+        exact mem_ids.mpr ⟨r, List.mem_of_mem_head? hh, hcc⟩
+    have hnone : callsOf s.nextDid (s.trace ++ [Entry.api (.send ev), Entry.begin s.nextDid ev]) = [] := by
+      rw [callsOf_append, callsOf_nocall s.nextDid (t := [Entry.api (.send ev), Entry.begin s.nextDid ev]) (by
+        intro e he
+        have : e = Entry.api (.send ev) ∨ e = Entry.begin s.nextDid ev := by simpa using he
+        rcases this with rfl | rfl <;> rfl), List.append_nil]
+      unfold callsOf
+      rw [List.filterMap_eq_nil_iff]
+      intro e he
+      cases e with
+      | call d' id f u e' =>
+        have := h.callDid d' id f u e' he
+        have hne : d' ≠ s.nextDid := by omega
+        simp [hne]
+      | _ => rfl
+    have hlt0 : ∀ c, Option.map (fun x => x.id) s.list.head? = some c →
+        ∀ x ∈ callsOf s.nextDid (s.trace ++ [Entry.api (.send ev), Entry.begin s.nextDid ev]), x < c := by
+      intro c _ x hx; rw [hnone] at hx; cases hx
+    cases hloop : loop rv beh s.nextDid ev fuel (Option.map (fun x => x.id) s.list.head?)
+        { s with trace := s.trace ++ [Entry.api (.send ev), Entry.begin s.nextDid ev], nextDid := s.nextDid + 1, refCount := s.refCount + 1 } with
+    | error e1 => rw [hloop] at hs; simp at hs
+    | ok s1 =>
+      rw [hloop] at hs
+      simp only [Except.ok.injEq] at hs
+      obtain ⟨h1, e1⟩ := ((exec_loop_ok rv beh fuel).2 s.nextDid ev _ _ h0 (Nat.succ_pos _) (Nat.lt_succ_self _)
+        hlive hlt0).1 s1 hloop
+      obtain ⟨δ1, hδ1, _⟩ := e1.trace
+      -- the shape of the whole new part
+      have hshape : ∃ tail, newPart s s' = [Entry.api (.send ev), Entry.begin s.nextDid ev] ++ (δ1 ++ tail) := by
+        subst hs
+        unfold newPart
+        by_cases hgt : s1.refCount - 1 > 0
+        · exact ⟨[Entry.done s.nextDid], by simp only [hgt, if_true, hδ1, List.append_assoc, List.drop_left]⟩
+        · exact ⟨(s1.list.filter (·.remove)).map (fun r => Entry.free r.id) ++ [Entry.done s.nextDid], by
+            simp only [hgt, if_false, sweep, hδ1, List.append_assoc, List.drop_left]⟩
+      obtain ⟨tail, hsh⟩ := hshape
+      have hpre : ∀ e ∈ [Entry.api (.send ev), Entry.begin s.nextDid ev], turnP s.nextDid r.id e = true := by
+        intro e he
+        have : e = Entry.api (.send ev) ∨ e = Entry.begin s.nextDid ev := by simpa using he
+        rcases this with rfl | rfl <;> rfl
+      obtain ⟨r1, hh1, hle1⟩ : ∃ r1, s.list.head? = some r1 ∧ r1.id ≤ r.id := by
+        cases hl : s.list with
+        | nil => rw [hl] at hr; cases hr
+        | cons a l =>
+          refine ⟨a, rfl, ?_⟩
+          rw [hl] at hr
+          rcases List.mem_cons.mp hr with rfl | hr'
+          · exact Nat.le_refl _
+          · have := h.sorted; rw [hl] at this
+            exact Nat.le_of_lt ((sorted_cons this).1 r hr')
+      have hkl := kloopT rv beh ev r fuel s.nextDid _ _ s1 h0 (Nat.succ_pos _) (Nat.lt_succ_self _)
+        hlive hlt0 ⟨r, hr, rfl, rfl, rfl, hrm, hmask⟩ hloop (by
+          intro c' hc'
+          rw [newPart_of_append hδ1] at hc'
+          apply hq c'
+          rw [hsh, beforeTurn_eq, takeWhile_append_all _ hpre]
+          apply List.mem_append_right
+          exact mem_takeWhile_append_left tail (by rw [← beforeTurn_eq]; exact hc')) r1.id (by rw [hh1]; rfl) hle1
+      rw [newPart_of_append hδ1] at hkl
+      rw [hsh]
+      exact List.mem_append_right _ (List.mem_append_left _ hkl)
+
+
+/-! ## with the repaired `_add` (rv = true) a successful registration always leaves a live record -/
+
+theorem walkAdd_registers (fn user evm : Nat) (idle : Bool) (hz : evm ≠ 0) (l : List Rec)
+    (hf : (walkAdd true fn user evm idle l).found = true) :
+    ∃ r ∈ (walkAdd true fn user evm idle l).chain, r.fn = fn ∧ r.user = user ∧ r.mask = evm ∧ r.remove = false := by
+  induction l with
+  | nil => simp [walkAdd] at hf
+  | cons eh rest ih =>
+    unfold walkAdd at hf ⊢
+    by_cases hhit : (eh.fn == fn && eh.user == user) = true
+    · simp only [hhit, if_true, hz, if_false] at hf ⊢
+      have hfu : eh.fn = fn ∧ eh.user = user := by simpa using hhit
+      exact ⟨{ eh with mask := evm, remove := false }, by simp, hfu.1, hfu.2, rfl, rfl⟩
+    · simp only [hhit, if_false, Bool.false_eq_true] at hf ⊢
+      obtain ⟨r, hr, h'⟩ := ih hf
+      exact ⟨r, by simp [hr], h'⟩
+
+/-- `_vbi_event_handler_list_add` with a non-zero mask and no allocation failure, on any state
+(idle or inside a delivery, handler unknown, registered or marked for removal): afterwards the
+handler is linked, unmarked, with the new mask. -/
+theorem apiAdd_registers (fn user evm : Nat) (hz : evm ≠ 0) (s : State) :
+    ∃ r ∈ (apiAdd true fn user evm false s).list, r.fn = fn ∧ r.user = user ∧ r.mask = evm ∧ r.remove = false := by
+  unfold apiAdd
+  by_cases hf : (walkAdd true fn user evm (s.refCount == 0) s.list).found = true
+  · obtain ⟨r, hr, h'⟩ := walkAdd_registers fn user evm (s.refCount == 0) hz s.list hf
+    simp only [hf, Bool.not_true, Bool.false_and, Bool.false_eq_true, if_false]
+    exact ⟨r, hr, h'⟩
+  · have hf' : (walkAdd true fn user evm (s.refCount == 0) s.list).found = false := by
+      cases h : (walkAdd true fn user evm (s.refCount == 0) s.list).found <;> simp_all
+    simp only [hf', Bool.not_false, Bool.true_and, decide_eq_true_eq, ne_eq, hz, not_false_eq_true, if_true,
+      Bool.false_eq_true, if_false]
+    exact ⟨_, List.mem_append_right _ (List.mem_singleton.mpr rfl), rfl, rfl, rfl, rfl⟩
+
 end Zvbi.Evl
